@@ -29,6 +29,7 @@ import (
 	"google.golang.org/protobuf/encoding/protojson"
 	"google.golang.org/protobuf/proto"
 	"google.golang.org/protobuf/reflect/protoreflect"
+	"google.golang.org/protobuf/reflect/protoregistry"
 	"google.golang.org/protobuf/types/known/anypb"
 	"google.golang.org/protobuf/types/known/durationpb"
 )
@@ -72,8 +73,14 @@ func serviceOptions(cfg cfgSpec) []vanguard.ServiceOption {
 }
 
 func buildTranscoder(cfg cfgSpec, handler, unknown http.Handler) (*vanguard.Transcoder, error) {
-	svc := schemaServiceFor(handler, serviceOptions(cfg))
-	return vanguard.NewTranscoder([]*vanguard.Service{svc}, transcoderOptions(unknown)...)
+	svcs := []*vanguard.Service{schemaServiceFor(handler, serviceOptions(cfg))}
+	if cfg.Aux {
+		// a second service on the same Transcoder whose type resolver knows nothing (not even the well-known types):
+		// codecs are built per service, with the service's resolver
+		svcs = append(svcs, vanguard.NewServiceWithSchema(verifSchema().Services().ByName("Aux"), handler,
+			append(serviceOptions(cfg), vanguard.WithTypeResolver(new(protoregistry.Types)))...))
+	}
+	return vanguard.NewTranscoder(svcs, transcoderOptions(unknown)...)
 }
 
 // ---------------------------------------------------------------- header classes
